@@ -9,13 +9,80 @@ import (
 	"net/http/httptest"
 	"net/url"
 	"strings"
+	"sync"
+	"sync/atomic"
 
 	"github.com/fabiolb/fabio/config"
 	"github.com/fabiolb/fabio/proxy"
 	"github.com/fabiolb/fabio/route"
 )
 
-func init() { register("c13-redirect", "C13", c13Redirect) }
+func init() {
+	register("c13-redirect", "C13", c13Redirect)
+	register("c13-concurrent", "C13", c13Concurrent)
+}
+
+// c13Concurrent: "under any number of simultaneous requests": many goroutines request
+// different URLs on the same redirect routes; each must get the Location for its own request.
+func c13Concurrent(c *ctx) {
+	c.R.Rule = "32 goroutines send distinct requests (own path, query, host) to the same redirect routes of every template form through HTTPProxy.ServeHTTP; each Location must be the one for its own request; race detector on. evaluations = requests; non-trivial = request served while another request to the same route was in flight (first 20000 counted); distinct by (goroutine,iteration)"
+	var b strings.Builder
+	for i, tm := range c13Templates {
+		fmt.Fprintf(&b, "route add r%d red%d.test/ %s opts \"redirect=30%d\"\n", i, i, tm, 1+i%3)
+	}
+	t, err := newTable(b.String())
+	if err != nil {
+		c.R.Inconcl("table: %v", err)
+		return
+	}
+	gc := route.NewGlobCache(100)
+	stub := &c06Stub{}
+	hp := &proxy.HTTPProxy{Config: config.Proxy{}, Transport: stub,
+		Lookup: func(r *http.Request) *route.Target {
+			return t.Lookup(r, "", route.Picker["rr"], route.Matcher["prefix"], gc, false)
+		}}
+	per := c.scale(c.pick(3000, 100000))
+	var inflight [32]atomic.Int32
+	var nt atomic.Int32
+	var wg sync.WaitGroup
+	for g := 0; g < 32; g++ {
+		wg.Add(1)
+		go func(g int) {
+			defer wg.Done()
+			r := c.rng(int64(7000 + g))
+			for i := 0; i < per; i++ {
+				k := r.Intn(len(c13Templates))
+				cs := &c13Case{Tmpl: c13Templates[k], Host: fmt.Sprintf("red%d.test", k), RawPath: fmt.Sprintf("/g%d/i%d/%s", g, i, choose(r, c13PathSegs)), Query: fmt.Sprintf("g=%d&i=%d", g, i)}
+				req, err := c13Request(cs.Host, cs.RawPath, cs.Query, false, nil)
+				if err != nil {
+					continue
+				}
+				esc := (&url.URL{Path: req.URL.Path, RawPath: req.URL.RawPath}).EscapedPath()
+				want := c13Expect(cs, esc)
+				rec := httptest.NewRecorder()
+				if inflight[k%32].Add(1) > 1 && nt.Add(1) <= 20000 {
+					c.R.Nontrivial(fmt.Sprintf("%d/%d", g, i))
+				}
+				p := safely(func() { hp.ServeHTTP(rec, req) })
+				inflight[k%32].Add(-1)
+				c.R.Eval(1)
+				if p != "" {
+					c.R.Violate("c13:concurrent-panic", p, nil)
+					return
+				}
+				if got := rec.Header().Get("Location"); got != want || rec.Code != 301+k%3 {
+					c.R.Violate("c13:location-crossed", fmt.Sprintf("goroutine %d request %s%s?%s got %d Location %q, want %q", g, cs.Host, cs.RawPath, cs.Query, rec.Code, got, want), nil)
+					return
+				}
+			}
+		}(g)
+	}
+	wg.Wait()
+	if stub.hits.Load() != 0 {
+		c.R.Violate("c13:upstream-contacted", "a redirect route contacted an upstream", nil)
+	}
+	c.R.Sample(map[string]any{"request": "red3.test/g5/i7/%2F?g=5&i=7", "template": c13Templates[3], "want": "https://new.test/g5/i7/%2F?g=5&i=7"})
+}
 
 type c13Tmpl struct {
 	Dst string // target of the route, e.g. https://$host/bbb/$path
@@ -27,7 +94,7 @@ var c13Templates = []string{
 	"https://$host/", "https://new.test$path?own=1", "https://$host/y/$path?own=2", "http://new.test:8080/$path",
 }
 
-var c13PathSegs = []string{"a", "b", "%2F", "%20", "%3F", "%25", "a%2Fb", "x.y", "-_~", "é", "%C3%A9", "a+b", "a;b", "@", ":", "é%2F"}
+var c13PathSegs = []string{"p", "p/q", "a", "b", "%2F", "%20", "%3F", "%25", "a%2Fb", "x.y", "-_~", "é", "%C3%A9", "a+b", "a;b", "@", ":", "é%2F"}
 
 type c13Case struct {
 	Tmpl    string
